@@ -429,31 +429,39 @@ func runC10(c *Ctx) {
 			continue
 		}
 		fn := p.SSAFunc(obj)
-		okDesc, okNulls := false, false
+		okDesc, okNulls, okBoth := false, false, false
 		allInstrs(fn, true, func(in *ssa.Function, ins ssa.Instruction) {
 			ifi, ok := ins.(*ssa.If)
 			if !ok {
 				return
 			}
-			for _, o := range Origins(ifi.Cond, OriginOpts{}) {
-				if o.Kind != OrgCall {
-					continue
+			names := map[string]bool{}
+			for _, o := range Origins(ifi.Cond, OriginOpts{ThroughBinOp: true}) {
+				if o.Kind == OrgCall {
+					names[calleeName(o.Call)] = true
 				}
-				switch calleeName(o.Call) {
-				case "(SortingColumn).Descending":
-					// the true edge allocates the reversed wrapper
-					for _, x := range ifi.Block().Succs[0].Instrs {
-						if a, isA := x.(*ssa.Alloc); isA && strings.Contains(a.Type().String(), "reversedColumnBuffer") {
-							okDesc = true
-						}
+			}
+			if names["(SortingColumn).Descending"] && !names["(SortingColumn).NullsFirst"] {
+				// the true edge allocates the reversed wrapper
+				for _, x := range ifi.Block().Succs[0].Instrs {
+					if a, isA := x.(*ssa.Alloc); isA && strings.Contains(a.Type().String(), "reversedColumnBuffer") {
+						okDesc = true
 					}
-				case "(SortingColumn).NullsFirst":
-					okNulls = true
+				}
+			}
+			if names["(SortingColumn).NullsFirst"] {
+				okNulls = true
+				// the reverser wraps the optional column as a whole, so it also
+				// inverts where nulls go: the null ordering has to take the
+				// direction into account
+				if names["(SortingColumn).Descending"] {
+					okBoth = true
 				}
 			}
 		})
 		c.Check(rule, k+" wraps exactly the descending columns", fn.Pos(), okDesc, "the reversed wrapper is not created on the Descending() edge")
 		c.Check(rule, k+" takes the null ordering from NullsFirst()", fn.Pos(), okNulls, "null ordering no longer depends on NullsFirst()")
+		c.Check(rule, k+" corrects the null ordering of reversed columns", fn.Pos(), okBoth, "the null ordering is chosen from NullsFirst() alone, but the descending wrapper inverts the whole comparison of the optional column including the placement of nulls: Descending sorts nulls first and NullsFirst(Descending) sorts them last, against the declared sorting column and Schema.Comparator")
 	}
 	c.Min(rule, 3)
 
